@@ -18,7 +18,8 @@ RULE = ("a case is (class PickledDict|DBMDict, creation via create|from_dict(d) 
         "and (PickledDict) a reopen; distinct = distinct (class, creation, history).")
 ASSUMPTIONS = ["only dbm.dumb exists in this image, so DBMDict reopen and path-existence errors are outside the stated scope",
                "a refusal of a closed-dictionary operation is any raised exception (ValueError in practice)",
-               "aliasing through mutable bytearray values is not asserted"]
+               "aliasing through mutable bytearray values is not asserted as such: after the caller changed a stored bytearray in place, "
+               "whatever the dictionary shows is taken as its contents at that time (and must survive close + open)"]
 
 KEYS = [b"", b"a", b"b", b"\x00", b"key-with-some-length", b"\xff\xfe", b"\x80\x04N.", b"a\x00"]
 
@@ -162,6 +163,21 @@ class Run:
                 m[key] = bytes(val)
             else:
                 self.must_raise(k, lambda: d.__setitem__(key, val), "set_invalid_value", TypeError)
+        elif t == "mutate_value":
+            # the caller changes a stored bytearray in place through the reference the dictionary hands out.  Whether the dictionary
+            # sees that is its business (an in-memory dict does); what it shows right afterwards is "the contents at this time", and
+            # those are what a later close + open must bring back
+            key = KEYS[op[1]]
+            if key in m:
+                obj = d[key]
+                if isinstance(obj, bytearray):
+                    if op[2] == "extend":
+                        obj.extend(b"!")
+                    elif op[2] == "first" and len(obj):
+                        obj[0:1] = b"z"
+                    else:
+                        obj.reverse()
+                    m[key] = bytes(d[key])
         elif t == "get":
             key = KEYS[op[1]]
             if key in m:
@@ -258,7 +274,7 @@ def run_case(case):
 # ---------------------------------------------------------------------------------------------------------
 @st.composite
 def st_value(draw):
-    t = draw(st.sampled_from(["b"] * 8 + ["ba", "ba", "s", "i", "none", "l", "mv", "arr", "f", "t"]))
+    t = draw(st.sampled_from(["b"] * 8 + ["ba", "ba", "ba", "s", "i", "none", "l", "mv", "arr", "f", "t"]))
     if t in ("b", "ba"):
         import pickle
         special = [b"", b"\x00", b"\x80\x04N.", pickle.dumps(7, 4), pickle.dumps(b"other", 4), pickle.dumps(None, 2), b"\x80\x04\x95garbage.",
@@ -275,13 +291,15 @@ def st_value(draw):
 def st_op(draw, pickled):
     kinds = ["set"] * 6 + ["get"] * 3 + ["getd", "del", "del", "del", "clear", "sync", "mutate_source", "open_missing"]
     if pickled:
-        kinds += ["reopen", "reopen", "closed", "ctx", "create_existing"]
+        kinds += ["reopen", "reopen", "closed", "ctx", "create_existing", "mutate_value", "mutate_value"]
     t = draw(st.sampled_from(kinds))
     ki = draw(st.integers(0, len(KEYS) - 1))
     if t == "set":
         return ["set", ki, draw(st_value())]
     if t in ("get", "getd", "del"):
         return [t, ki]
+    if t == "mutate_value":
+        return [t, ki, draw(st.sampled_from(["extend", "first", "reverse"]))]
     if t == "mutate_source":
         return [t, ki, draw(st.sampled_from(["set", "del", "clear"]))]
     return [t]
@@ -299,6 +317,13 @@ def st_case(draw, max_ops=30):
     else:
         c["init"] = None
     c["ops"] = draw(st.lists(st_op(pickled), min_size=1, max_size=max_ops))
+    if pickled and draw(st.integers(0, 4)) == 0:
+        # a stored bytearray is changed in place while the dictionary is otherwise untouched since it was last written out
+        ki = draw(st.integers(0, len(KEYS) - 1))
+        pat = [["set", ki, ["ba", draw(st.binary(min_size=1, max_size=8)).hex()]], [draw(st.sampled_from(["reopen", "sync"]))],
+               ["mutate_value", ki, draw(st.sampled_from(["extend", "first", "reverse"]))], ["reopen"], ["get", ki]]
+        at = draw(st.integers(0, len(c["ops"])))
+        c["ops"] = c["ops"][:at] + pat + c["ops"][at:]
     return c
 
 
